@@ -11,14 +11,15 @@
 (*                 integers are 32 bit; products of two ints need more)    *)
 (*                                                                         *)
 (* Three layers, related by theorems that ChainDiag.tla checks with TLC:   *)
-(*  1. TEXTBOOK  RhatSqTextbook: BDA3 (3rd ed.) section 11.4, formulas     *)
-(*     (11.1)-(11.4) on the split chains, step by step over rationals.     *)
-(*  2. CODE      EssCodeRat: eff_sample_size statement by statement over   *)
-(*     rationals (the FFT autocovariance is, in exact arithmetic, the      *)
-(*     plain lagged product sum divided by N - t).  RhatSqCodeRat likewise.*)
-(*  3. CLEARED   R2Int / EssFrac: the same two values written with integer *)
-(*     sums only, in manifestly shift-invariant form; these are what the   *)
-(*     trace spec ChainDiag_Trace evaluates on larger chains.              *)
+(*  1. TEXTBOOK  RhatSqTextbook: BDA3 (3rd ed.) section 11.4, the formulas  *)
+(*     for B, W, var+ and Rhat on the split chains, over rationals.        *)
+(*  2. CODE      RhatSqCode / EssCodeRat: gelman_rubin_statistic and       *)
+(*     eff_sample_size statement by statement over rationals (the FFT      *)
+(*     autocovariance is, in exact arithmetic, the plain lagged product    *)
+(*     sum divided by N - t).                                              *)
+(*  3. CLEARED   R2Int / EssCleared: the same two values written with      *)
+(*     integer sums only, in manifestly shift-invariant form; these are    *)
+(*     what the trace spec ChainDiag_Trace evaluates on larger chains.     *)
 (* Callers keep N <= 16, M <= 4 and |values| <= 16 so that every plain     *)
 (* integer stays below 2^31; TLC stops with an overflow error otherwise    *)
 (* (machinery failure, never a verdict).                                   *)
@@ -240,40 +241,40 @@ EssCodeRat(ch) == EssGen(ch, TRUE, FALSE)
 (*    and with L = lcm(1..N-1) and tau = the first lag with num_t < 0,     *)
 (*      ESS = M N (N-1) G L / ( (N-1) G L + 2 sum_{t<tau} num_t L/(N-t) ). *)
 (*    Only non-negative terms are ever added, so big NATURALS suffice.     *)
+(*    EssCleared(ch) = [def, bnd, num, den]: def = the value is defined    *)
+(*    (N >= 2 and var_pooled > 0), bnd = some evaluated num_t is 0, and    *)
+(*    num / den the ESS as big naturals.                                   *)
 (***************************************************************************)
-ZOf(ch) == [j \in 1..Len(ch) |-> LET S == ISum(ch[j]) IN [i \in 1..NSamp(ch) |-> NSamp(ch) * ch[j][i] - S]]
 LagSum(z, t) == ISum([j \in 1..Len(z) |-> ISum([i \in 1..(Len(z[j]) - t) |-> z[j][i] * z[j][i + t]])])
-EssQ(ch) == LagSum(ZOf(ch), 0) \div NSamp(ch)
-EssT(ch) == TOf(ch)
-EssD1(ch) == IF Len(ch) > 1 THEN Len(ch) - 1 ELSE 1
-EssG(ch) == EssD1(ch) * EssQ(ch) + EssT(ch)
-EssNumAt(ch, t) ==
-  LET N == NSamp(ch) IN
-  EssT(ch) * (N - 1) * (N - t) + EssD1(ch) * ((N - 1) * LagSum(ZOf(ch), t) - (N - t) * EssQ(ch))
-EssDefined(ch) == NSamp(ch) >= 2 /\ EssG(ch) > 0
-RECURSIVE EssBoundaryIntFrom(_, _)
-EssBoundaryIntFrom(ch, t) ==
-  IF t >= NSamp(ch) THEN FALSE
-  ELSE LET num == EssNumAt(ch, t)
-       IN IF num = 0 THEN TRUE ELSE IF num > 0 THEN EssBoundaryIntFrom(ch, t + 1) ELSE FALSE
-EssBoundary(ch) == EssDefined(ch) /\ EssBoundaryIntFrom(ch, 1)
 Lcm(a, b) == (a \div Gcd(a, b)) * b
 RECURSIVE LcmUpTo(_)
 LcmUpTo(n) == IF n <= 1 THEN 1 ELSE Lcm(LcmUpTo(n - 1), n)
-RECURSIVE EssTermsFrom(_, _, _)
-\* sum over the lags t, t+1, .. before the first negative one of num_t * L / (N - t)   (big natural)
-EssTermsFrom(ch, t, L) ==
-  IF t >= NSamp(ch) THEN <<0>>
-  ELSE LET num == EssNumAt(ch, t)
-       IN IF num < 0 THEN <<0>>
-          ELSE BAdd(BMul(BOfInt(num), BOfInt(L \div (NSamp(ch) - t))), EssTermsFrom(ch, t + 1, L))
-\* <<numerator, denominator>> as big naturals; meaningful where EssDefined
-EssFrac(ch) ==
-  LET N == NSamp(ch)
-      L == LcmUpTo(N - 1)
-      common == BMul(BOfInt((N - 1) * L), BOfInt(EssG(ch)))
-  IN <<BMulInt(common, Len(ch) * N),
-       BAdd(common, BMulInt(EssTermsFrom(ch, 1, L), 2))>>
-\* the big-natural fraction equals the rational r = <<p, q>> (p >= 0)
-FracEqRat(fr, r) == BEq(BMulInt(fr[1], r[2]), BMulInt(fr[2], r[1]))
+RECURSIVE EssTermsFrom(_, _, _, _, _, _)
+\* over the lags t, t+1, .. up to the first negative one: the sum of num_t * L / (N - t)
+\* (big natural) and whether some num_t was 0
+EssTermsFrom(z, Q, T, D1, L, t) ==
+  LET N == Len(z[1]) IN
+  IF t >= N THEN [terms |-> <<0>>, bnd |-> FALSE]
+  ELSE LET num == T * (N - 1) * (N - t) + D1 * ((N - 1) * LagSum(z, t) - (N - t) * Q)
+       IN IF num < 0 THEN [terms |-> <<0>>, bnd |-> FALSE]
+          ELSE LET rest == EssTermsFrom(z, Q, T, D1, L, t + 1)
+               IN [terms |-> BAdd(BMul(BOfInt(num), BOfInt(L \div (N - t))), rest.terms),
+                   bnd |-> (num = 0) \/ rest.bnd]
+EssCleared(ch) ==
+  LET M == Len(ch)
+      N == NSamp(ch)
+      z == Mat([j \in 1..M |-> LET S == ISum(ch[j]) IN Mat([i \in 1..N |-> N * ch[j][i] - S])])
+      Q == LagSum(z, 0) \div N
+      T == TOf(ch)
+      D1 == IF M > 1 THEN M - 1 ELSE 1
+      G == D1 * Q + T
+  IN IF N < 2 \/ G = 0 THEN [def |-> FALSE, bnd |-> FALSE, num |-> <<0>>, den |-> <<1>>]
+     ELSE LET L == LcmUpTo(N - 1)
+              common == BMul(BOfInt((N - 1) * L), BOfInt(G))
+              r == EssTermsFrom(z, Q, T, D1, L, 1)
+          IN [def |-> TRUE, bnd |-> r.bnd,
+              num |-> BMulInt(common, M * N),
+              den |-> BAdd(common, BMulInt(r.terms, 2))]
+\* the big-natural fraction num/den equals the rational r = <<p, q>> (p >= 0)
+FracEqRat(num, den, r) == BEq(BMulInt(num, r[2]), BMulInt(den, r[1]))
 =============================================================================
